@@ -549,6 +549,14 @@ class VarsManager(object):
             same_real([name + "i" for name in new_name_list])
         else:
             same_real(new_name_list)
+        # the other members of merged groups follow their (former) heads
+        for tail in ["r", "i"] if cplx else [""]:
+            head = new_name_list[0] + tail
+            if head not in self.variables:
+                continue
+            for name in name_list:
+                if name + tail in self.variables:
+                    self.variables[name + tail] = self.variables[head]
         self.same_list.append(name_list)
 
     def get(self, name, val_in_fit=True):
